@@ -294,6 +294,7 @@ class GridWeighted(Grid):
             self._weights = [float(val) for val in value]
         else:
             raise TypeError("The input should be a list, tuple or a single int, float value")
+        self._cache['gridptsw'][:] = []
 
     def reset(self):
         """ Resets the grid. """
@@ -319,9 +320,10 @@ class GridWeighted(Grid):
         if not self._cache['gridptsw']:
             for idx, cols in enumerate(self._grid_points):
                 weighted_gp_row = []
-                for row in cols:
-                    temp = [r * self._weights[idx] for r in row]
-                    temp.append(self._weights[idx])
+                for jdx, row in enumerate(cols):
+                    wgt = self._weights[jdx + (idx * len(cols))]
+                    temp = [r * wgt for r in row]
+                    temp.append(wgt)
                     weighted_gp_row.append(temp)
                 self._cache['gridptsw'].append(weighted_gp_row)
 
